@@ -742,7 +742,7 @@ fn c13_variant<V: Variant>(ctx: &Ctx, rep: &mut Report) {
 }
 
 pub fn run_compare(ctx: &Ctx, rep: &mut Report) {
-    rep.rule = "seeded pairs of strings per variant drawn from {accepted (random letter case, with / without prefix), wrong length, bad prefix, bad character; with the strict parser also invalid checksum, invalid length code} x the same: compare_with::<T> against parse-both-then-compare through the crate's own parser (side and error kind) and against the codec + distance models; tlsh::compare == compare_with::<Tlsh>; distinct by fingerprint of (variant, left, right)".into();
+    rep.rule = "seeded pairs of strings per variant drawn from {accepted (random letter case, with / without prefix), wrong length, bad prefix, bad character; with the strict parser also invalid checksum, invalid length code} x the same: compare_with::<T> against parse-both-then-compare through the crate's own parser (side and error kind) and against the codec + distance models; tlsh::compare == compare_with::<Tlsh>; plus non-ASCII operands, re-spelled digits with damaged prefixes, and accepted spellings decorated with line terminators, blanks, NUL, quotes, BOM, sign, radix / doubled prefix, separators (around the string or replacing its first / last characters); distinct by fingerprint of (variant, left, right)".into();
     all_variants!(c13_variant, ctx, rep);
     let cells = if cfg!(feature = "strict") { 36 } else { 16 };
     if ctx.scale >= 1.0 {
